@@ -475,8 +475,13 @@ private:
     bool elem_all(std::vector<Cand>& cur, std::vector<Cand>& nxt, F f) const
     {
         nxt.clear();
+        const size_t hard = 6 * cand_cap();
         for (auto& c : cur)
+        {
             f(c, nxt);
+            if (nxt.size() > hard)
+                return false; // blown up before de-duplication: the case is inconclusive, stop paying for it
+        }
         // dedup
         if (nxt.size() > 1)
         {
